@@ -12,7 +12,6 @@ use super::totality_live::{Body, Camp, End, heap_verdict};
 use super::totality_live2::{IceCreds, stun_binding_request};
 use super::totality_mut as mutators;
 use super::totality_pure as pure;
-use crate::alloc_count;
 use crate::common::*;
 use rustrtc::transports::ice::IceParameters;
 use rustrtc::{IceRole, IceServer, IceTransport, RtcConfiguration};
@@ -279,7 +278,7 @@ fn turn_body(mut c: Camp) -> Pin<Box<dyn Future<Output = (Camp, End)> + Send>> {
         ice.set_role(IceRole::Controlled);
         let lp = ice.local_parameters();
         let creds = IceCreds { ufrag: lp.username_fragment.clone(), pwd: lp.password.clone() };
-        c.heap_base = alloc_count::tag_net_bytes(c.id);
+        c.rebaseline();
         if let Err(e) = ice.start_gathering() {
             return (c, End::Inconclusive(format!("start_gathering: {e}")));
         }
